@@ -25,6 +25,9 @@ type LogDS struct {
 	init map[string][]byte
 	m    map[string][]byte
 	Log  []WriteSet
+	// OnWrite, if set, is called (without the lock) right before the n-th atomic write is applied: the instant a
+	// crash "before write n" would happen. Monitors use it to sample what the node reports at that instant.
+	OnWrite func(n int)
 }
 
 func NewLogDS(init map[string][]byte) *LogDS {
@@ -115,13 +118,24 @@ func (s *LogDS) Query(_ context.Context, q dsq.Query) (dsq.Results, error) {
 	}
 	return dsq.NaiveQueryApply(q, dsq.ResultsWithEntries(q, es)), nil
 }
+func (s *LogDS) before() {
+	if f := s.OnWrite; f != nil {
+		s.mu.Lock()
+		n := len(s.Log)
+		s.mu.Unlock()
+		f(n)
+	}
+}
+
 func (s *LogDS) Put(_ context.Context, k ds.Key, v []byte) error {
+	s.before()
 	s.mu.Lock()
 	defer s.mu.Unlock()
 	s.apply(WriteSet{{Key: k.String(), Val: append([]byte(nil), v...)}})
 	return nil
 }
 func (s *LogDS) Delete(_ context.Context, k ds.Key) error {
+	s.before()
 	s.mu.Lock()
 	defer s.mu.Unlock()
 	s.apply(WriteSet{{Del: true, Key: k.String()}})
@@ -145,6 +159,7 @@ func (b *logBatch) Delete(_ context.Context, k ds.Key) error {
 	return nil
 }
 func (b *logBatch) Commit(context.Context) error {
+	b.s.before()
 	b.s.mu.Lock()
 	defer b.s.mu.Unlock()
 	b.s.apply(b.ws)
